@@ -243,6 +243,8 @@ def groups(tier, seed):
         yield {'kind': 'func', 'range': [i, min(i + 200, len(fc))]}
     # (d) argv layer
     yield {'kind': 'argv'}
+    # (e) a legal tree that is one long chain of directories (every path below PATH_MAX): an answer in time
+    yield {'kind': 'deepchain'}
 
 
 def single(case):
@@ -268,6 +270,7 @@ STREAM_ARGVS = [['--help'], ['--version'], [], ['-i'], ['--nocolor'], ['name fro
                 ['name from /nonexistent'], ['name from /work where name rx ('], ['name, size from /work order by size limit 2 into csv']]
 ZONES = ['XXX-24', 'XXX+24', '<-24>24', 'XXX-24:59:59', 'XXX+24:59:59', 'AAA+23BBB-24,M3.2.0,M11.1.0', 'XXX-23:59:59', 'XXX+0', '', ':', 'nonsense', 'XXX-25', 'XXX+99', ':/nonexistent',
          'UTC0', 'A-1', '<+1245>-12:45<+1345>,M9.5.0/2:45,M4.1.0/3:45', 'XXX-14', 'XXX+12', 'EST5EDT,0,365', 'EST5EDT,J1,J365/25', 'x' * 300]
+CHAIN_DEPTH = 1200
 STREAM_STATES = [{'stdout': 'full'}, {'stdout': 'epipe'}, {'stderr': 'full'}, {'stderr': 'epipe'}, {'stdout': 'epipe', 'stderr': 'epipe'}, {'stdout': 'full', 'stderr': 'full'}]
 
 
@@ -422,6 +425,38 @@ def eval_group(env, group, tier):
                 else:
                     agg['cases'] += 1
                     agg['nt'] += 1
+    elif kind == 'deepchain' or (kind == 'one' and group.get('label') == 'deep-chain'):
+        import subprocess
+        top = os.path.join(j['root'], 'chain%d' % os.getpid())
+        here = os.getcwd()
+        try:
+            os.mkdir(top)
+            os.chdir(top)
+            for _ in range(CHAIN_DEPTH):
+                os.mkdir('d')
+                os.chdir('d')
+            open('leaf', 'w').close()
+            os.chdir(here)
+            name = '/' + os.path.basename(top)
+            argvs = [['count(*) from %s' % name], ['count(*) from %s dfs' % name], ['name from %s symlinks where name = leaf' % name],
+                     ['name from %s depth 5' % name]]      # (with an ignore option every directory's real path is still resolved: cubic, recorded as a limit)
+            for a in argvs:
+                if kind == 'one' and [x.replace(name, '@') for x in a] != group['argv']:
+                    continue
+                o = core.run_jailed(env, j['root'], a, timeout=15.0, cwd='/')
+                cls, detail = judge(o)
+                if not cls and a[0].startswith('count') and o.out.strip() != str(CHAIN_DEPTH + 1).encode():
+                    cls, detail = 'deep-chain-count', o.brief()
+                case = {'argv': [x.replace(name, '@') for x in a], 'label': 'deep-chain', 'expect': None}
+                if cls:
+                    outs.append({'case': case, 'status': 'viol', 'cls': cls, 'detail': dict(detail, argv=case['argv'], depth=CHAIN_DEPTH), 'nt': True, 'sig': ('viol', cls),
+                                 'layer': 'deep-chain'})
+                else:
+                    agg['cases'] += 1
+                    agg['nt'] += 1
+        finally:
+            os.chdir(here)
+            subprocess.run(['rm', '-rf', top])
     elif kind == 'one' and group.get('label') == 'zone':
         o = core.run_jailed(env, j['root'], group['argv'], timeout=10.0, cwd='/work', extra_env={'TZ': group['tz']})
         cls, detail = judge(o)
